@@ -834,7 +834,7 @@ CHECKS['C18']['note'] = CHECKS['C18']['note'] + (
     ' Generator: equal-length axes with mixed per-axis shift tuples are enumerated in the factor (n-d) and FourierTransform '
     'streams; a list of expected strata (EXPECTED_BRANCHES) is enforced and an unhit one fails the run.')
 
-CHECKS['C03']['text'] = CHECKS['C03']['text'].replace('23 theorems.', '31 theorems.') + (
+CHECKS['C03']['text'] = CHECKS['C03']['text'].replace('23 theorems.', '30 theorems.') + (
     ' The in-place theorem for x != out (call_in_place_distinct, pso_in_place) assumes leaves that are only correct for distinct x '
     'and out (contract AllOKg False); it holds because every expression class passes a FRESH temporary to its operand '
     '(sensitivity: reusing_out_as_temporary_is_wrong; accum_leaf_ok / accum_leaf_not_alias_safe exhibit such a leaf); '
